@@ -22,6 +22,28 @@ def gen_cases(rnd, n):
         wait = rnd.choice([0, 5, 20, 120])
         now = 10000 + rnd.randint(0, 100)
         ops = ["cfg %s %d %d" % (fn, interval, wait)]
+        if rnd.random() < 0.3:
+            # sparse histories: one or two points per series and bucket, series taking turns, buckets closing in between
+            # (processors that need two points to say anything; state carried from one bucket to the next would show)
+            fn = rnd.choice(["derive", "derive", "delta", "stdev", "last", "percentiles", fn])
+            ops = ["cfg %s %d %d" % (fn, interval, wait)]
+            keys = ["a", "a.b", "zz", "q"]
+            k = 0
+            for _ in range(rnd.randint(4, 40)):
+                key = keys[k % len(keys)]
+                k += rnd.choice([1, 1, 2])
+                for _ in range(rnd.choice([1, 1, 1, 2])):
+                    v = rnd.choice([0.0, 1.0, 2.0, 5.0, -3.5, 10.0, round(rnd.uniform(0, 10), 2)])
+                    ops.append("p %s %d %d %d" % (key, now - rnd.choice([0, 0, 1]), bits(v), now))
+                    now += rnd.choice([0, 1])
+                if rnd.random() < 0.6:
+                    now += wait + interval + rnd.choice([1, 2, interval])
+                    ops.append("t %d" % now)
+            now += 1000
+            ops.append("t %d" % now)
+            ops.append("end")
+            cases.append(("a%d" % i, ops))
+            continue
         for _ in range(rnd.randint(1, 60)):
             now += rnd.choice([0, 0, 1, 1, 2, 5, 15, 40])
             if rnd.random() < 0.75:
